@@ -321,12 +321,15 @@ func checkCallbackListUntouched(c *Ctx, r *Report, rule string) {
 		for _, ci := range callInstrs(f) {
 			cc := ci.Common()
 			for i, a := range cc.Args {
+				if cc.StaticCallee() == hc && derivesFull(a, list, 0) {
+					passed = true
+					continue
+				}
 				if stripValue(stripConv(a)) != ssa.Value(list) {
 					continue
 				}
-				if cc.StaticCallee() == hc {
-					passed = true
-					continue
+				if b, ok := cc.Value.(*ssa.Builtin); ok && b.Name() == "append" {
+					continue // an order-preserving copy
 				}
 				if b, ok := cc.Value.(*ssa.Builtin); ok && (b.Name() == "len" || b.Name() == "cap") {
 					continue
